@@ -118,6 +118,8 @@ class W2World(World):
             'avoid_known': rng.random() < 0.8,
             'other_graph': rng.random() < 0.5,
             'second_session': rng.random() < 0.35,
+            # the topology object is an instance of a (trivial) user-defined subclass of the library's class
+            'subclassed': rng.random() < 0.2,
             'step_cap': 600,
         }
 
@@ -148,6 +150,12 @@ class W2World(World):
         NetworkXGraphStorageDisjoint.storage_instance = None
         self.imp = NetworkXGraphImporter() if cfg['store'] == 'shared' else NetworkXGraphImporterDisjoint()
         from fim.user.topology import ExperimentTopology, SubstrateTopology
+        if cfg.get('subclassed'):
+            class ExperimentTopology(ExperimentTopology):     # noqa: F811
+                pass
+
+            class SubstrateTopology(SubstrateTopology):       # noqa: F811
+                pass
         if cfg.get('other_graph'):
             # a bystander graph in the same store: must never change (isolation seen from the topology API)
             other = ExperimentTopology(importer=self.imp)
